@@ -34,6 +34,9 @@ macro_rules! record {
             "into": via_into.to_be_bytes(),
             "eq_self": x == v, "eq_self_rev": v == x,
             "eq_other": x == w, "eq_other_rev": w == x,
+            // the operators, not only the trait's eq: `!=` may be overridden separately
+            "ne_self": x != v, "ne_self_rev": v != x,
+            "ne_other": x != w, "ne_other_rev": w != x,
             "size": std::mem::size_of::<$W>(), "align": std::mem::align_of::<$W>(),
             "nsize": std::mem::size_of::<$N>(), "nalign": std::mem::align_of::<$N>(),
             "vs": buf[3..3 + std::mem::size_of::<$N>()],
